@@ -496,6 +496,44 @@ def check(fx, rep, tier):
                 )
         else:
             ok = bool(variants) and variants <= allowed_kinds
+            # the *condition* of the exit: empty input / an offset that does not fit in u32, nothing tighter
+            why = ""
+            if ok and kind == "return":
+                conds = [anc["cond"] for anc, key in ps if anc.get("k") == "If" and key == "then"]
+                cts = [T.term(c, T.Env()) for c in conds]
+                if variants == {"EmptyBytecode"}:
+                    ok = any(st[0] == "call" and isinstance(st[1], str) and F.strip_generics(st[1]).split("::")[-1] == "is_empty" for ct in cts for st in T.subterms(ct)) or any(
+                        ct[0] == "bin" and ct[1] == "Eq" and ("lit", "0") in (ct[2], ct[3]) for ct in cts
+                    )
+                    why = "the empty-input exit is not conditional on the input being empty"
+                elif "BytecodeTooLarge" in variants:
+                    big = False
+                    for ct in cts:
+                        for st in T.subterms(ct):
+                            if st[0] == "bin" and st[1] in ("Lt", "Le", "Gt", "Ge"):
+                                for side in (st[2], st[3]):
+                                    val = None
+                                    for q in T.subterms(side):
+                                        if q[0] == "path":
+                                            cv = fx.const_value(q[1])
+                                            if cv is not None:
+                                                val = cv
+                                        if q[0] == "lit":
+                                            try:
+                                                val = int(q[1])
+                                            except (TypeError, ValueError):
+                                                pass
+                                    if val is not None and val >= 4294967295:
+                                        big = True
+                    ok = big
+                    why = "the too-large exit compares the input length with a bound below u32::MAX: deployable-size (or larger) code is rejected instead of disassembled"
+            elif ok and kind == "?" and "BytecodeTooLarge" in variants:
+                names = [F.strip_generics(st[1]) for st in T.subterms(T.term(node, T.Env())) if st[0] == "call" and isinstance(st[1], str)]
+                ok = any("try_from" in nm or "try_into" in nm for nm in names)
+                why = "the too-large exit is not the failure of a checked conversion of an offset to u32"
+            if not ok and why:
+                rep.oblige(False, "R10.3", f"err-exit-condition:{'/'.join(sorted(variants))}", w, why)
+                continue
             rep.oblige(
                 ok,
                 "R10.3",
